@@ -38,6 +38,18 @@ Theorem C12_fixrot_zero_L : forall omega ms rs ps, length ms = length rs -> leng
   mapply (inertia ms rs) omega = angmom rs ps -> angmom rs (fixrot_go omega ms rs ps) = vzero.
 Proof. exact fixrot_zero_L. Qed.
 Print Assumptions C12_fixrot_zero_L.
+(* ... and that omega EXISTS and is unique for ANY non-collinear positions (two position vectors relative to the centre of mass that are not
+   parallel), any positive masses and any momenta: the inertia tensor is symmetric positive definite (v.Iv = sum m |r x v|^2), hence invertible *)
+Theorem C12_fixrot_any_noncollinear : forall ms rs ps r1 r2, Forall (fun m => 0 < m) ms -> length ms = length rs -> length rs = length ps ->
+  In r1 rs -> In r2 rs -> cross r1 r2 <> vzero ->
+  exists omega, mapply (inertia ms rs) omega = angmom rs ps /\ (forall o', mapply (inertia ms rs) o' = angmom rs ps -> o' = omega) /\
+                angmom rs (fixrot_go omega ms rs ps) = vzero.
+Proof. exact fixrot_any_noncollinear. Qed.
+Print Assumptions C12_fixrot_any_noncollinear.
+Theorem C12_inertia_positive_definite : forall ms rs r1 r2, Forall (fun m => 0 < m) ms -> length ms = length rs -> In r1 rs -> In r2 rs -> cross r1 r2 <> vzero ->
+  forall v, v <> vzero -> 0 < qf (inertia ms rs) v.
+Proof. exact inertia_pd. Qed.
+Print Assumptions C12_inertia_positive_definite.
 Theorem C12_fixrot_keeps_P : forall omega ms xs ps, length ms = length xs -> length xs = length ps -> summ ms <> 0 ->
   sumv (fixrot_go omega ms (rel_com ms xs) ps) = sumv ps.
 Proof. exact fixrot_keeps_P. Qed.
